@@ -243,6 +243,24 @@ partial def decPred (j : Json) : E (Pred α) := do
         | .ok none, "v" => { evs := evs, res := .val .null }
         | .ok none, _ => { evs := evs, res := .raise .nestedNotFound }
         | .error e, _ => { evs := evs, res := .raise e }
+  | [.str "nb2", p1, p2] => do
+      -- two hops: `r = get_match(p1, candidate, must_match=False)`, then `get(p2, r, default=None)`; `r` is a
+      -- plain Match, so the second search is not traced
+      let s1 ← decSteps p1
+      let s2 ← decSteps p2
+      return fun n =>
+        let (evs, r) := im.first s1 n
+        match r with
+        | .ok (some m) =>
+          let (evs2, r2) := im.first s2 m
+          -- untraced: no Trace callbacks; user predicates and conversion functions are still called
+          let evs := evs ++ evs2.filter (fun e => match e with | .attempt .. => false | _ => true)
+          match r2 with
+          | .ok (some m2) => { evs := evs, res := .val (im.cx.toJ m2.data) }
+          | .ok none => { evs := evs, res := .val .null }
+          | .error e => { evs := evs, res := .raise e }
+        | .ok none => { evs := evs, res := .val .null }
+        | .error e => { evs := evs, res := .raise e }
   | [.str "below", first, tabp] => do
       return belowH im (← decStep first) (← decPred tabp) 64
   | [.str "below2", first, tabp] => do
